@@ -223,8 +223,10 @@ func (ev *Evaluator) Eval(fn *ssa.Function, args []Val) (*Outcome, error) {
 				}
 				cb, ok := c.(Const)
 				if !ok || cb.V == nil || cb.V.Kind() != constant.Bool {
-					// uninterpreted boolean (result of a call outside the module): an atom of the scenario
-					if _, isTerm := c.(Term); isTerm {
+					// uninterpreted boolean (result of a call outside the module, package-level switch): an atom of the scenario
+					_, isTerm := c.(Term)
+					_, isSym := c.(Sym)
+					if isTerm || isSym {
 						if ord, known := ev.Oracle.Cmp(c, Const{constant.MakeBool(true)}); known {
 							ev.Asked = append(ev.Asked, fmt.Sprintf("%v", c))
 							cb, ok = Const{constant.MakeBool(ord == 0)}, true
@@ -427,6 +429,11 @@ func (ev *Evaluator) instr(env map[ssa.Value]Val, in ssa.Value) (Val, error) {
 			if c, ok := x.(Const); ok && c.V != nil && c.V.Kind() == constant.Bool {
 				return Const{constant.MakeBool(!constant.BoolVal(c.V))}, nil
 			}
+			// opaque boolean (package-level switch, uninterpreted call): an atom of the scenario
+			if ord, known := ev.Oracle.Cmp(x, Const{constant.MakeBool(true)}); known {
+				ev.Asked = append(ev.Asked, fmt.Sprintf("%v", x))
+				return Const{constant.MakeBool(ord != 0)}, nil
+			}
 		case token.SUB:
 			if c, ok := x.(Const); ok && c.V != nil {
 				return Const{constant.UnaryOp(token.SUB, c.V, 0)}, nil
@@ -585,6 +592,8 @@ func (ev *Evaluator) instr(env map[ssa.Value]Val, in ssa.Value) (Val, error) {
 		return ElemPtr{Base: x, Index: idx}, nil
 	case *ssa.Call:
 		return ev.call(env, in)
+	case *ssa.MakeSlice:
+		return Sym{"make"}, nil
 	}
 	return nil, &Undecided{in.Pos(), fmt.Sprintf("unsupported value %T", in)}
 }
